@@ -1,2 +1,62 @@
-(* RefutedC13.v — witnesses against merge_typesystems as it was before 7d9931c (regression evidence). *)
+(* RefutedC13.v — witnesses against merge_typesystems as it was before 7d9931c (regression evidence, DESIGN section 6:
+   D08 D09 D10) and before 13b42b8.  The pre-fix pieces (re-parenting that only assigns the supertype, no rejection of a
+   supertype below the type itself, every ready declaration processed again on every round, a progress test that never
+   fires) are defined at the end of Merge.v; everything here is closed by vm_compute. *)
 From Cassis Require Import Base TS Merge.
+
+Definition mk (ops : list tsop) : tsys := final_ts ops init_ts.
+
+(* D08: X is declared below A in one input and below B (a subtype of A) in the other.  The old re-parenting assigns the
+   new supertype only: A keeps X among its children, B does not get it, X does not inherit B's feature f. *)
+Definition d08_a : tsys := mk [CT "a.A" ANNOTATION; CT "a.B" "a.A"; CT "a.X" "a.A"; CF "a.B" "f" "uima.cas.String" None].
+Definition d08_b : tsys := mk [CT "a.A" ANNOTATION; CT "a.B" "a.A"; CT "a.X" "a.B"].
+Definition children_of (ts : tsys) (n : tname) : list tname := match find_ty ts n with Some t => t_children t | None => [] end.
+Definition super_of (ts : tsys) (n : tname) : option tname := match find_ty ts n with Some t => t_super t | None => None end.
+Definition feats_of (ts : tsys) (n : tname) : list fname := match find_ty ts n with Some t => feature_names t | None => [] end.
+
+Theorem old_reparenting_refuted :
+  exists a b ts, wfb a = true /\ wfb b = true /\ merge_old 10 [a; b] = Ok ts /\
+    super_of ts "a.X" = Some "a.B" /\ children_of ts "a.B" = [] /\ children_of ts "a.A" = ["a.B"; "a.X"] /\
+    memb "f" (feats_of ts "a.X") = false /\ wfhb ts = false.
+Proof. exists d08_a, d08_b. eexists. vm_compute. repeat split. Qed.
+(* the repaired mechanism on the same inputs, both argument orders *)
+Theorem new_reparenting_ok :
+  exists ts ts', merge [d08_a; d08_b] = Ok ts /\ merge [d08_b; d08_a] = Ok ts' /\ wfb ts = true /\ wfb ts' = true /\
+    children_of ts "a.B" = ["a.X"] /\ children_of ts "a.A" = ["a.B"] /\ memb "f" (feats_of ts "a.X") = true /\ ts_equiv ts ts' = true.
+Proof. eexists. eexists. vm_compute. repeat split. Qed.
+(* the old result depended on the argument order *)
+Theorem old_order_dependence_refuted :
+  exists ts ts', merge_old 10 [d08_a; d08_b] = Ok ts /\ merge_old 10 [d08_b; d08_a] = Ok ts' /\ wfb ts' = true /\ ts_equiv ts ts' = false.
+Proof. eexists. eexists. vm_compute. repeat split. Qed.
+
+(* D09: {A, B<A} and {B, A<B} merged into A < B < A without error *)
+Definition d09_a : tsys := mk [CT "a.A" ANNOTATION; CT "a.B" "a.A"].
+Definition d09_b : tsys := mk [CT "a.B" ANNOTATION; CT "a.A" "a.B"].
+Theorem old_mutual_supertypes_refuted :
+  exists ts, merge_old 10 [d09_a; d09_b] = Ok ts /\ super_of ts "a.A" = Some "a.B" /\ super_of ts "a.B" = Some "a.A" /\ wfhb ts = false.
+Proof. eexists. vm_compute. repeat split. Qed.
+Theorem new_mutual_supertypes_raise : merge [d09_a; d09_b] = Err EValue /\ merge [d09_b; d09_a] = Err EValue.
+Proof. vm_compute. split; reflexivity. Qed.
+
+(* D10: the old progress test compared an int with a list, so a declaration that never becomes ready kept the loop going.
+   Such a declaration cannot come from a well-formed input; the witness is a hand-made declaration list. *)
+Definition orphan : ty := mkTy "a.X" (Some "a.Missing") None [] [] [] None [] 5.
+Theorem old_no_progress_loops : forall fuel, rounds_old fuel [mkDecl 1 orphan] (mkSt init_ts [] []) = OutOfFuel.
+Proof. induction fuel as [|k IH]; [reflexivity|]. cbn [rounds_old pass_old bind]. exact IH. Qed.
+Theorem new_no_progress_raises : forall fuel, rounds fn_form (S fuel) [mkDecl 1 orphan] (mkSt init_ts [] []) = Err EValue.
+Proof. intros fuel. reflexivity. Qed.
+
+(* 13b42b8: before, the no-progress test came first, so inputs without any user type (no arguments at all, or empty
+   type systems built with add_document_annotation_type=False) raised "Unmergeable types" *)
+Fixpoint rounds_7d99 (fuel : nat) (l : list decl) (st : mst) : res mst :=
+  match fuel with
+  | O => OutOfFuel
+  | S k => do x <- pass fn_form l st;;
+           if Nat.eqb (List.length l) (List.length (snd x)) then Err EValue
+           else match snd x with [] => Ok (fst x) | _ => rounds_7d99 k (snd x) (fst x) end
+  end.
+Theorem old_empty_merge_refuted :
+  rounds_7d99 1 (type_list []) (mkSt init_ts [] []) = Err EValue /\ rounds_7d99 1 (type_list [init_ts_nodoc]) (mkSt init_ts [] []) = Err EValue.
+Proof. vm_compute. split; reflexivity. Qed.
+Theorem new_empty_merge_ok : merge [] = Ok init_ts /\ merge [init_ts_nodoc; init_ts_nodoc] = Ok init_ts.
+Proof. vm_compute. split; reflexivity. Qed.
